@@ -121,10 +121,11 @@ PLAN["C15"] = other(
     "getNonEntries (exactly the positive-length unlabelled stretches of [0, maxTimestamp], ordered, in span) and "
     "validate() of both tier classes in the non-raising modes (False exactly when an entry is invalid, out of span "
     "or out of order - for arbitrary, not necessarily well-formed tiers; Textgrid.validate for <= 2 tiers: False "
-    "exactly when a tier's span differs from the textgrid's or a tier is invalid) proved for all inputs. Bounded: "
-    "find with regular expressions, timestamps, getValuesInIntervals/AtPoints, invertIntervalList, equality and "
+    "exactly when a tier's span differs from the textgrid's or a tier is invalid) and timestamps (strictly sorted, "
+    "exactly the boundary times) proved for all inputs. Bounded: "
+    "find with regular expressions, getValuesInIntervals/AtPoints, invertIntervalList, equality and "
     "reportingMode='error' on exhaustive small grids.",
-    "Queries agree with their definitions: seven queries proved for all inputs, the rest on the stated bounded "
+    "Queries agree with their definitions: eight queries proved for all inputs, the rest on the stated bounded "
     "domain.",
     ["c15_queries"])
 PLAN["C16"] = other(
@@ -377,6 +378,8 @@ CANARIES = [
      "target": "praatio.data_classes.textgrid.Textgrid.validate",
      "old": "if self.maxTimestamp != tier.maxTimestamp:", "new": "if self.maxTimestamp < tier.maxTimestamp:",
      "config": ["k=1,reportingMode=silence"]},
+    {"name": "timestamps-no-dedup", "props": ["C15"], "file": IT, "target": ITC + ".timestamps",
+     "old": "uniqueTimestamps = list(set(tmpTimestamps))", "new": "uniqueTimestamps = list(tmpTimestamps)"},
     {"name": "find-substr-swapped", "props": ["C15"], "file": "praatio/data_classes/textgrid_tier.py",
      "target": "praatio.data_classes.textgrid_tier.TextgridTier.find",
      "old": "if matchLabel in entry.label:", "new": "if entry.label in matchLabel:"},
